@@ -10,7 +10,8 @@
   * /repo/imapclient/client.go `beginCommand` (`cfgOf`: how QuotedUTF8 / LiteralMinus / LiteralPlus
     are derived from `c.caps` / `c.enabled`), `commandEncoder.Literal` (`appendSync`), the
     continuation-request hand-shake of `Encoder.Literal` + `registerContReq` / `readContinueReq` /
-    `completeCommand` as seen by ONE command that holds the encoder lock (`stepPiece`, `finish`);
+    `completeCommand` as seen by the command that holds the encoder lock (`stepPiece`, `answer`,
+    `finish`), with the FIFO `Client.contReqs` carried from one command to the next (`execSeq`);
   * the command writers of /repo/imapclient/*.go that take string arguments (`Cmd.parts`), among
     them /repo/imapclient/search.go `search` (the CHARSET rule) and `writeSearchKey`.
 
@@ -165,6 +166,7 @@ deriving DecidableEq, Repr
 inductive Stop where
   | refusedNo | refusedBad   -- `sync.Wait()` returned the tagged NO / BAD (completeCommand cancels the request)
   | encErr                   -- the encoder's own sticky error
+  | hang                     -- `sync.Wait()` never returns: the server's `+` went to another request
 deriving DecidableEq, Repr
 
 structure Run where
@@ -177,6 +179,10 @@ structure Run where
   /-- the server's answers still to come (the last one repeats; none = continuation requests) -/
   script : List Act := []
   stop : Option Stop := none
+  /-- `Client.contReqs`: the owners (tag numbers) of the queued continuation requests, oldest first -/
+  queue : List Nat := []
+  /-- the tag number of the command being written -/
+  me : Nat := 0
 deriving DecidableEq, Repr
 
 def nextAct : List Act → Act × List Act
@@ -184,10 +190,29 @@ def nextAct : List Act → Act × List Act
   | [a] => (a, [a])
   | a :: r => (a, r)
 
-/-- one encoder call. Once the sticky error is set (`enc.err != nil`) `writeString` does nothing and
-    `Encoder.Literal` hands out an `errorWriter`: nothing more is written.
-    A synchronising literal: `Literal` writes the header, `CRLF()` flushes, `sync.Wait()` blocks until
-    `readContinueReq` pops the request (→ payload) or `completeCommand` cancels it (→ error). -/
+/-- the server answered the synchronising literal whose header ends the flushed `wire`.
+    `+`: `readContinueReq` hands it to the OLDEST queued request — the payload follows only if that
+    is this command's; tagged NO/BAD: `completeCommand` cancels this command's requests. -/
+def answer (r : Run) (wire payload : Bytes) : Run :=
+  let (a, rest) := nextAct r.script
+  let acts := r.acts ++ [(wire.length, a)]
+  match a with
+  | .cont =>
+    match r.queue with
+    | h :: q =>
+      if h = r.me then { r with wire := wire, pending := payload, acts := acts, script := rest, queue := q }
+      else { r with wire := wire, pending := [], acts := acts, script := rest, queue := q, stop := some .hang }
+    | [] => { r with wire := wire, pending := [], acts := acts, script := rest, stop := some .hang }
+  | .no => { r with wire := wire, pending := [], acts := acts, script := rest, stop := some .refusedNo,
+                    queue := r.queue.filter (· ≠ r.me) }
+  | .bad => { r with wire := wire, pending := [], acts := acts, script := rest, stop := some .refusedBad,
+                     queue := r.queue.filter (· ≠ r.me) }
+
+/-- one encoder call. Once the sticky error is set (`enc.err != nil`) `writeString` does nothing,
+    `Encoder.Literal` hands out an `errorWriter`, and `registerContReq` does not queue a request for
+    a command the server has already answered: nothing more is written, nothing is left behind.
+    A synchronising literal: `registerContReq` queues the request, `Literal` writes the header,
+    `CRLF()` flushes, `sync.Wait()` blocks until the request is answered or cancelled (`answer`). -/
 def stepPiece (r : Run) (p : Piece) : Run :=
   if r.stop.isSome then r else
   match p with
@@ -195,13 +220,7 @@ def stepPiece (r : Run) (p : Piece) : Run :=
   | .nonSyncLit hdr payload => { r with pending := r.pending ++ hdr ++ payload }
   | .fail => { r with stop := some .encErr }
   | .syncLit hdr payload =>
-    let wire := r.wire ++ r.pending ++ hdr
-    let (a, rest) := nextAct r.script
-    let acts := r.acts ++ [(wire.length, a)]
-    match a with
-    | .cont => { wire := wire, pending := payload, acts := acts, script := rest, stop := none }
-    | .no => { wire := wire, pending := [], acts := acts, script := rest, stop := some .refusedNo }
-    | .bad => { wire := wire, pending := [], acts := acts, script := rest, stop := some .refusedBad }
+    answer { r with queue := r.queue ++ [r.me] } (r.wire ++ r.pending ++ hdr) payload
 
 def runPieces (r : Run) : List Piece → Run
   | [] => r
@@ -337,9 +356,9 @@ def Cmd.parts : List Cap → List Cap → Cmd → List Part := Cmd.partsWith Cri
 def cmdParts (caps enabled : List Cap) (tagNo : Nat) (c : Cmd) : List Part :=
   [.raw (84 :: digits tagNo), sp] ++ c.parts caps enabled
 
-/-- how the command ended for its caller -/
+/-- how the command ended for its caller (`hang`: it never did) -/
 inductive Result where
-  | ok | no | bad | err
+  | ok | no | bad | err | hang
 deriving DecidableEq, Repr
 
 structure Outcome where
@@ -355,13 +374,26 @@ def Run.outcome (r : Run) : Outcome :=
       | none => .ok
       | some .refusedNo => .no
       | some .refusedBad => .bad
-      | some .encErr => .err }
+      | some .encErr => .err
+      | some .hang => .hang }
 
 /-- one command against a server that answers its synchronising literals as `script` says and the
     complete command with a tagged OK; `none` = unmodelled argument -/
-def exec (caps enabled : List Cap) (tagNo : Nat) (c : Cmd) (script : List Act) : Option Outcome :=
+def execFrom (queue : List Nat) (caps enabled : List Cap) (tagNo : Nat) (c : Cmd) (script : List Act) :
+    Option (Outcome × List Nat) :=
   (pieces caps (cfgOf caps enabled) (cmdParts caps enabled tagNo c)).map fun ps =>
-    (finish (runPieces { script := script } ps)).outcome
+    let r := finish (runPieces { script := script, queue := queue, me := tagNo } ps)
+    (r.outcome, r.queue)
+
+def exec (caps enabled : List Cap) (tagNo : Nat) (c : Cmd) (script : List Act) : Option Outcome :=
+  (execFrom [] caps enabled tagNo c script).map (·.1)
+
+/-- two commands one after the other on the same connection (a NOOP in between takes a tag) -/
+def execSeq (caps enabled : List Cap) (tagNo : Nat) (c1 : Cmd) (s1 : List Act) (c2 : Cmd) (s2 : List Act) :
+    Option Outcome :=
+  match execFrom [] caps enabled tagNo c1 s1 with
+  | none => none
+  | some (_, q) => (execFrom q caps enabled (tagNo + 2) c2 s2).map (·.1)
 
 /-! ## behaviour before the repairs (kept for the counterexample theorems of Props/C18) -/
 namespace Legacy
@@ -381,6 +413,9 @@ def stepPiece (r : Run) (p : Piece) : Run :=
   if r.stop.isSome then
     match p with
     | .nonSyncLit _ payload => { r with pending := r.pending ++ payload }
+    -- `stringLiteral` / `commandEncoder.Literal` still called `registerContReq`: a request for a
+    -- command that has completed, which nothing ever cancels or answers
+    | .syncLit _ _ => { r with queue := r.queue ++ [r.me] }
     | _ => r
   else ClientSyntax.stepPiece r p
 
@@ -394,9 +429,20 @@ def finish (r : Run) : Run :=
   if r.stop.isSome then { r with wire := r.wire ++ r.pending, pending := [] }
   else ClientSyntax.finish r
 
-def exec (caps enabled : List Cap) (tagNo : Nat) (c : Cmd) (script : List Act) : Option Outcome :=
+def execFrom (queue : List Nat) (caps enabled : List Cap) (tagNo : Nat) (c : Cmd) (script : List Act) :
+    Option (Outcome × List Nat) :=
   (pieces caps (cfgOf caps enabled) (Legacy.cmdParts caps enabled tagNo c)).map fun ps =>
-    (Legacy.finish (Legacy.runPieces { script := script } ps)).outcome
+    let r := Legacy.finish (Legacy.runPieces { script := script, queue := queue, me := tagNo } ps)
+    (r.outcome, r.queue)
+
+def exec (caps enabled : List Cap) (tagNo : Nat) (c : Cmd) (script : List Act) : Option Outcome :=
+  (Legacy.execFrom [] caps enabled tagNo c script).map (·.1)
+
+def execSeq (caps enabled : List Cap) (tagNo : Nat) (c1 : Cmd) (s1 : List Act) (c2 : Cmd) (s2 : List Act) :
+    Option Outcome :=
+  match Legacy.execFrom [] caps enabled tagNo c1 s1 with
+  | none => none
+  | some (_, q) => (Legacy.execFrom q caps enabled (tagNo + 2) c2 s2).map (·.1)
 
 end Legacy
 
